@@ -69,7 +69,7 @@ def run(ctx: Ctx, replay: str | None) -> None:
     if ctx.tier == "thorough":
         # the quantifier's exhaustive family (entries in {-1,0,1}, up to 3x3) completely; the rest by residue class
         pick = [s for s in scns if _is_unit_family(s) or
-                (sum((i + 1) * x for i, x in enumerate(sum(s["J"], []))) + ctx.seed) % 4 == 0]
+                (sum((i + 1) * x for i, x in enumerate(sum(s["J"], []))) + ctx.seed) % 8 == 0]
         n_unit = sum(1 for s in pick if _is_unit_family(s))
         want_unit = sum(3 ** (m * n) for m in (1, 2, 3) for n in (1, 2, 3))
         if n_unit != want_unit:
@@ -98,8 +98,8 @@ def run(ctx: Ctx, replay: str | None) -> None:
         elif s["conflict"]:
             rest.append(s)
     rng.shuffle(rest)
-    extra = rest[: (40 if ctx.tier == "quick" else 400)]
-    cap = 400 if ctx.tier == "quick" else 3000
+    extra = rest[: (30 if ctx.tier == "quick" else 300)]
+    cap = 400 if ctx.tier == "quick" else 1500
     if len(big) > cap:
         ctx.count("large_budget_cases_not_run", len(big) - cap)
         rng.shuffle(big)
@@ -125,7 +125,7 @@ def run(ctx: Ctx, replay: str | None) -> None:
         ctx.sample({"episode": {k: e[k] for k in ("J", "e", "a", "reg", "u", "agg", "w")}})
     # C -> S for MGDA: random integer matrices (entries -4..4, imbalanced / nearly antiparallel / generic), every budget;
     # TLC (TraceMinNorm) computes minnorm^2 and the bracket of s^2 exactly and judges the logged |A|^2 and J.A
-    jobs = mgda_episodes(rng, 400 if ctx.tier == "quick" else 3000)
+    jobs = mgda_episodes(rng, 320 if ctx.tier == "quick" else 1600)
     meps = pmap(mgda_episode, jobs, chunksize=4)
     ctx.evaluations += len(meps)
     ctx.extra["mgda_trace_summary"] = validate_mgda(ctx, meps)
